@@ -944,7 +944,8 @@ pub fn run_c02(ctx: &Ctx) -> i32 {
             let lx = bdl::lex(text[b0..].trim_start_matches("<EntradaGraficaLIDER>").trim_start().trim_start_matches("<![CDATA["));
             let base = convert_outcome(Fmt::Ctehexml, text);
             for (kb, refkeys) in kinds.iter() {
-                let Some(b) = lx.blocks.iter().filter(|b| b.btype == *kb).find(|b| lx.blocks.iter().any(|x| x.attrs.iter().any(|(k, v)| refkeys.contains(&k.as_str()) && bdl::names_in(v).contains(&b.name)))) else { continue };
+                // every referenced definition of the kind (up to 12), one at a time
+                for b in lx.blocks.iter().filter(|b| b.btype == *kb).filter(|b| lx.blocks.iter().any(|x| x.attrs.iter().any(|(k, v)| refkeys.contains(&k.as_str()) && bdl::names_in(v).contains(&b.name)))).take(12) {
                 for newname in names {
                     let mut out = String::new();
                     let mut cur_key_is_ref = false;
@@ -980,6 +981,7 @@ pub fn run_c02(ctx: &Ctx) -> i32 {
                         // (an error is an acceptable answer under this property: some readers normalise blanks inside names)
                         _ => {}
                     }
+                }
                 }
             }
         }
